@@ -18,6 +18,7 @@ package pod_info
 //@ end
 
 //@ import gr "github.com/NVIDIA/KAI-scheduler/pkg/binder/plugins/gpusharing/gpu-request"
+//@ import resource "k8s.io/apimachinery/pkg/api/resource"
 
 // the GPU part of the pod's request as the scheduler sees it
 // same float, NaN included (IEEE == is false on NaN)
@@ -130,8 +131,10 @@ package pod_info
 //@   loop 1
 //@     invariant -1 <= rangeindex && rangeindex < len(pod.Spec.Containers)
 //@     invariant podResourcesList != nil && fresh(podResourcesList)
+//@     invariant forall p *resource.Quantity :: old(allocated(p)) ==> *p == old(*p)
 //@   loop 2
 //@     invariant podResourcesList != nil && fresh(podResourcesList)
+//@     invariant forall p *resource.Quantity :: old(allocated(p)) ==> *p == old(*p)
 //@   ensures fresh(result.scalarResources) && fresh(result.migResources) && fresh(result.draGpuCounts)
 //@ end
 
